@@ -48,20 +48,23 @@ def maskforms(tier):
 
 
 def combos(r, tier):
-    """The (mask form, representation, condition) product for one recipe,
-    simplest first; axes the recipe's arguments do not depend on collapse."""
+    """The (mask form, representation, condition, geometry) product for one
+    recipe, simplest first; axes the recipe's arguments do not depend on
+    collapse.  The geometry alphabet is the recipe's own (``r.geoms``), the
+    same in both tiers."""
     rr = reps(tier) if 'rep' in r.axes else reps(tier)[:1]
     cc = R.CONDITIONS if 'cond' in r.axes else R.CONDITIONS[:1]
     mm = maskforms(tier) if 'cond' in r.axes else R.MASKFORMS[:1]
     out = []
-    for mf in mm:
-        for rep in rr:
-            if rep == 'nddata' and not r.nddata:
-                continue
-            for cond in cc:
-                if mf == 'none' and cond in ('clean', 'int'):
-                    continue           # identical to mask form 'cond' (the mask is None there already)
-                out.append((mf, rep, cond))
+    for geom in r.geoms:
+        for mf in mm:
+            for rep in rr:
+                if rep == 'nddata' and not r.nddata:
+                    continue
+                for cond in cc:
+                    if mf == 'none' and cond in ('clean', 'int'):
+                        continue           # identical to mask form 'cond' (the mask is None there already)
+                    out.append((mf, rep, cond, geom))
     return out
 
 
@@ -82,15 +85,15 @@ def site_of(label, arg):
     return f'{base}:{arg}'
 
 
-def run_combo(acc, name, rep, cond, mf, seed, sample=False):
-    c = R.run_recipe(name, rep, cond, seed, maskform=mf)
+def run_combo(acc, name, rep, cond, mf, seed, sample=False, geom='base'):
+    c = R.run_recipe(name, rep, cond, seed, maskform=mf, geom=geom)
     if c is None:
         acc.skip('combination not applicable')
         return None
-    case0 = {'recipe': name, 'rep': rep, 'cond': cond, 'maskform': mf}
+    case0 = {'recipe': name, 'rep': rep, 'cond': cond, 'maskform': mf, 'geom': geom}
     for i, (label, status) in enumerate(c.steps):
         ok = status == 'ok'
-        acc.case(nontrivial=ok, key=(label, rep, cond, mf) if ok else None,
+        acc.case(nontrivial=ok, key=(label, rep, cond, mf, geom) if ok else None,
                  sample=dict(case0, step=label, status=status, watched=list(c.held)) if (sample and i == 0) else None)
         if not ok:
             acc.counters['steps_that_raised'] += 1
@@ -100,23 +103,23 @@ def run_combo(acc, name, rep, cond, mf, seed, sample=False):
         acc.violation('input-mutated', site_of(label, arg), dict(case0, step=label, arg=arg),
                       observed=f'{arg} changed in: {comps}', expected='bit-for-bit unchanged',
                       detail=f'after step {label!r} (status {dict(c.steps).get(label)}) with data representation {rep!r}, '
-                             f'condition {cond!r}, mask form {mf!r}')
-    acc.outcome((name, rep, cond, mf, tuple(s for _, s in c.steps)))
+                             f'condition {cond!r}, mask form {mf!r}, geometry {geom!r} (image shape {c.shape})')
+    acc.outcome((name, rep, cond, mf, geom, tuple(s for _, s in c.steps)))
     return c
 
 
 def run_unit(unit, tier, seed):
     acc = Acc()
     name = unit['recipe']
-    for n, (mf, rep, cond) in enumerate(combos(R.RECIPES[name], tier)):
+    for n, (mf, rep, cond, geom) in enumerate(combos(R.RECIPES[name], tier)):
         if rep == unit['rep']:
-            run_combo(acc, name, rep, cond, mf, seed, sample=(n % 41 == 0))
+            run_combo(acc, name, rep, cond, mf, seed, sample=(n % 41 == 0), geom=geom)
     return acc
 
 
 def replay(case, seed):
     acc = Acc()
-    run_combo(acc, case['recipe'], case['rep'], case['cond'], case.get('maskform', 'cond'), seed)
+    run_combo(acc, case['recipe'], case['rep'], case['cond'], case.get('maskform', 'cond'), seed, geom=case.get('geom', 'base'))
     return acc
 
 
